@@ -41,7 +41,8 @@ end Store
 
 /-! ### a predicate on the deadlines of every entry physically in a store -/
 
-def Mem.AllDl (P : Option Time → Prop) (m : Mem) : Prop := ∀ ke ∈ m.store, P ke.2.dl
+/-- every entry physically in the store has a user key and a deadline satisfying `P` -/
+def Mem.AllDl (P : Option Time → Prop) (m : Mem) : Prop := ∀ ke ∈ m.store, reserved ke.1 = false ∧ P ke.2.dl
 
 namespace Mem
 
@@ -69,7 +70,7 @@ theorem newDeadline_P {P : Option Time → Prop} {s : Mem} (h : s.AllDl P) (hP0 
     | some e =>
       simp only
       split
-      · exact h _ (mem_of_lookup hl)
+      · exact (h _ (mem_of_lookup hl)).2
       · exact hP0
 
 theorem mem_trim {cap : Nat} {st : Store} {x : Key × Entry} (h : x ∈ trim cap st) : x ∈ st := by
@@ -78,12 +79,12 @@ theorem mem_trim {cap : Nat} {st : Store} {x : Key × Entry} (h : x ∈ trim cap
   · exact List.mem_of_mem_tail h
   · exact h
 
-theorem rawSet_allDl {P : Option Time → Prop} {s : Mem} (h : s.AllDl P) (hP0 : P none) (k : Key) (v : Val) (ttl : Option Nat)
-    (hPt : P (deadlineOf s.now ttl)) : (s.rawSet k v ttl).AllDl P := by
+theorem rawSet_allDl {P : Option Time → Prop} {s : Mem} (h : s.AllDl P) (hP0 : P none) {k : Key} (hr : reserved k = false)
+    (v : Val) (ttl : Option Nat) (hPt : P (deadlineOf s.now ttl)) : (s.rawSet k v ttl).AllDl P := by
   intro x hx
   rcases mem_put (mem_trim hx) with hx | hx
   · exact h x hx
-  · subst hx; exact newDeadline_P h hP0 k ttl hPt
+  · subst hx; exact ⟨hr, newDeadline_P h hP0 k ttl hPt⟩
 
 theorem rawDelete_allDl {P} {s : Mem} (h : s.AllDl P) (k : Key) : (s.rawDelete k).1.AllDl P := by
   unfold rawDelete
@@ -95,7 +96,7 @@ end Mem
 
 namespace Mem
 
-theorem incr_allDl {P : Option Time → Prop} {s : Mem} (h : s.AllDl P) (hP0 : P none) (k : Key) (by_ : Int) (ttl : Option Nat)
+theorem incr_allDl {P : Option Time → Prop} {s : Mem} (h : s.AllDl P) (hP0 : P none) {k : Key} (hr : reserved k = false) (by_ : Int) (ttl : Option Nat)
     (hPt : P (deadlineOf s.now ttl)) : (s.step (.incr k by_ ttl)).1.AllDl P := by
   have h1 := rawGet_allDl h k
   have hn := rawGet_now s k
@@ -105,12 +106,12 @@ theorem incr_allDl {P : Option Time → Prop} {s : Mem} (h : s.AllDl P) (hP0 : P
   simp only at h1 hn ⊢
   split
   · exact h1
-  · apply rawSet_allDl h1 hP0
+  · apply rawSet_allDl h1 hP0 hr
     split
     · rw [hn]; exact hPt
     · exact hP0
 
-theorem expire_allDl {P : Option Time → Prop} {s : Mem} (h : s.AllDl P) (hP0 : P none) (k : Key) (ttl : Option Nat)
+theorem expire_allDl {P : Option Time → Prop} {s : Mem} (h : s.AllDl P) (hP0 : P none) {k : Key} (hr : reserved k = false) (ttl : Option Nat)
     (hPt : P (deadlineOf s.now ttl)) : (s.step (.expire k ttl)).1.AllDl P := by
   have h1 := rawGet_allDl h k
   have hn1 := rawGet_now s k
@@ -121,7 +122,7 @@ theorem expire_allDl {P : Option Time → Prop} {s : Mem} (h : s.AllDl P) (hP0 :
   · exact h1
   · split
     · exact h2
-    · exact rawSet_allDl h2 hP0 _ _ _ (by rw [hn2, hn1]; exact hPt)
+    · exact rawSet_allDl h2 hP0 hr _ _ (by rw [hn2, hn1]; exact hPt)
 
 theorem getExpire_eq {K s t} (g : Good K s t) {k : Key} (hk : k ∈ K) : s.getExpire k = t.getExpire k := by
   have := (good_step g (.getExpire k) (by simp [Op.keys, hk])).2
@@ -170,11 +171,11 @@ theorem exists_refines (h : TxRef K P st a tb) {k : Key} (_hk : k ∈ K) (hr : r
       rw [g2.2, h.user k hr]
       exact ⟨⟨g1.1, g2.1, h.del, h.user, h.bnow, h.locks, h.lockKeys, f1⟩, by simp [hd2]⟩
 
-theorem put_refines (h : TxRef K P st a tb) {k : Key} (hk : k ∈ K) (v : Val) (ttl : Option Nat)
+theorem put_refines (h : TxRef K P st a tb) {k : Key} (hk : k ∈ K) (hr : reserved k = false) (v : Val) (ttl : Option Nat)
     (hP0 : P none) (hPt : P (deadlineOf st.ov.now ttl)) :
     TxRef K P (st.put k v ttl) (a.put k v ttl) tb :=
   ⟨Mem.good_rawSet h.ov hk v ttl, h.b, by simp [put, ATx.put, h.del], h.user, h.bnow, h.locks, h.lockKeys,
-   Mem.rawSet_allDl h.fresh hP0 k v ttl hPt⟩
+   Mem.rawSet_allDl h.fresh hP0 hr v ttl hPt⟩
 
 theorem exists_ovnow (st : TxSt) (k : Key) : (st.exists_ k).1.ov.now = st.ov.now := by
   unfold exists_
@@ -190,31 +191,31 @@ theorem set_refines (h : TxRef K P st a tb) {k : Key} (hk : k ∈ K) (hr : reser
   have he := exists_refines h hk hr
   have hn := exists_ovnow st k
   cases c with
-  | always => exact ⟨put_refines h hk v ttl hP0 hPt, rfl⟩
+  | always => exact ⟨put_refines h hk hr v ttl hP0 hPt, rfl⟩
   | nx =>
     simp only [set, ATx.step]
     rw [he.2]
     by_cases hp : a.present k
     · simp only [hp, if_true]; exact ⟨he.1, trivial⟩
     · have hp' : a.present k = false := by simpa using hp
-      simp only [hp', Bool.false_eq_true, if_false]; exact ⟨put_refines he.1 hk v ttl hP0 (by rw [hn]; exact hPt), trivial⟩
+      simp only [hp', Bool.false_eq_true, if_false]; exact ⟨put_refines he.1 hk hr v ttl hP0 (by rw [hn]; exact hPt), trivial⟩
   | xx =>
     simp only [set, ATx.step]
     rw [he.2]
     by_cases hp : a.present k
-    · simp only [hp, if_true]; exact ⟨put_refines he.1 hk v ttl hP0 (by rw [hn]; exact hPt), trivial⟩
+    · simp only [hp, if_true]; exact ⟨put_refines he.1 hk hr v ttl hP0 (by rw [hn]; exact hPt), trivial⟩
     · have hp' : a.present k = false := by simpa using hp
       simp only [hp', Bool.false_eq_true, if_false]; exact ⟨he.1, trivial⟩
 
 theorem setMany_refines (kvs : List (Key × Val)) (ttl : Option Nat) (hP0 : P none) :
-    ∀ {st : TxSt} {a : ATx}, TxRef K P st a tb → (∀ kv ∈ kvs, kv.1 ∈ K) → P (deadlineOf st.ov.now ttl) →
+    ∀ {st : TxSt} {a : ATx}, TxRef K P st a tb → (∀ kv ∈ kvs, kv.1 ∈ K ∧ reserved kv.1 = false) → P (deadlineOf st.ov.now ttl) →
     TxRef K P (st.setMany kvs ttl) (kvs.foldl (fun a kv => a.put kv.1 kv.2 ttl) a) tb := by
   induction kvs with
   | nil => intro st a h _ _; exact h
   | cons kv kvs ih =>
     intro st a h hk hPt
     simp only [setMany, List.foldl_cons]
-    exact ih (put_refines h (hk kv (by simp)) kv.2 ttl hP0 hPt) (fun kv' h' => hk kv' (by simp [h'])) hPt
+    exact ih (put_refines h (hk kv (by simp)).1 (hk kv (by simp)).2 kv.2 ttl hP0 hPt) (fun kv' h' => hk kv' (by simp [h'])) hPt
 
 theorem delete_refines (h : TxRef K P st a tb) (k : Key) : TxRef K P (st.delete k) (a.delete k) tb :=
   ⟨(Mem.good_rawDelete h.ov k).1, h.b, by simp [delete, ATx.delete, h.del], h.user, h.bnow, h.locks, h.lockKeys,
@@ -247,7 +248,7 @@ theorem seed_refines (h : TxRef K P st a tb) {k : Key} (hk : k ∈ K) (hr : rese
   · have hv : (a.b.find k).map (·.val) = (st.b.rawGet k).2 := by rw [g2.2, h.user k hr]
     rw [if_pos hc, if_pos (hiff.mp hc), hv]
     have gs := Mem.good_rawSet g1.1 hk ((st.b.rawGet k).2.getD (.int 0)) none
-    have fs := Mem.rawSet_allDl f1 hP0 k ((st.b.rawGet k).2.getD (.int 0)) none hP0
+    have fs := Mem.rawSet_allDl f1 hP0 hr ((st.b.rawGet k).2.getD (.int 0)) none hP0
     exact ⟨gs, g2.1, h.del, h.user, h.bnow, h.locks, h.lockKeys, fs⟩
   · rw [if_neg hc, if_neg (fun x => hc (hiff.mpr x))]
     exact ⟨g1.1, h.b, h.del, h.user, h.bnow, h.locks, h.lockKeys, f1⟩
@@ -258,7 +259,7 @@ theorem incr_refines (h : TxRef K P st a tb) {k : Key} (hk : k ∈ K) (hr : rese
     (st.incr k by_ ttl).2 = (a.step (.incr k by_ ttl)).2 := by
   have hs := seed_refines h hk hr hP0
   have gi := Mem.good_step hs.ov (.incr k by_ ttl) (by simp [Op.keys, hk])
-  have fi := Mem.incr_allDl hs.fresh hP0 k by_ ttl (by rw [seed_ovnow]; exact hPt)
+  have fi := Mem.incr_allDl hs.fresh hP0 hr by_ ttl (by rw [seed_ovnow]; exact hPt)
   refine ⟨⟨gi.1, hs.b, ?_, hs.user, hs.bnow, hs.locks, hs.lockKeys, fi⟩, gi.2⟩
   show List.filter _ (st.seed k).del = List.filter _ (a.seed k).del
   rw [hs.del]
@@ -281,7 +282,7 @@ theorem expire_refines (h : TxRef K P st a tb) {k : Key} (hk : k ∈ K) (hr : re
     | some e =>
       simp only [Option.map_some, Option.isSome_some, if_true]
       have ge := Mem.good_step g1.1 (.expire k ttl) (by simp [Op.keys, hk])
-      have fe := Mem.expire_allDl f1 hP0 k ttl (by rw [hn1]; exact hPt)
+      have fe := Mem.expire_allDl f1 hP0 hr ttl (by rw [hn1]; exact hPt)
       simp only [TtlMap.step, ho] at ge
       exact ⟨ge.1, h.b, h.del, h.user, h.bnow, h.locks, h.lockKeys, fe⟩
     | none =>
@@ -292,7 +293,7 @@ theorem expire_refines (h : TxRef K P st a tb) {k : Key} (hk : k ∈ K) (hr : re
       | some e =>
         simp only [Option.map_some]
         exact ⟨Mem.good_rawSet g1.1 hk e.val ttl, g2.1, h.del, h.user, h.bnow, h.locks, h.lockKeys,
-          Mem.rawSet_allDl f1 hP0 k e.val ttl (by rw [hn1]; exact hPt)⟩
+          Mem.rawSet_allDl f1 hP0 hr e.val ttl (by rw [hn1]; exact hPt)⟩
 
 theorem get_refines (h : TxRef K P st a tb) {k : Key} (_hk : k ∈ K) (hr : reserved k = false) :
     TxRef K P (st.get k).1 a tb ∧
@@ -383,7 +384,7 @@ theorem baseStep_refines (h : TxRef K P st a tb) (op : Op) (hk : KeysOk K op) (h
     have := set_refines h hkk.1 hkk.2 v ttl c hP0 (hPt ttl (by simp [Op.ttls]))
     exact ⟨tb, this.1, this.2, by simp [Op.dt, Op.isTxOp]⟩
   | setMany kvs ttl =>
-    refine ⟨tb, setMany_refines kvs ttl hP0 h (fun kv hkv => (hk kv.1 ?_).1) (hPt ttl (by simp [Op.ttls])), rfl, by simp [Op.dt, Op.isTxOp]⟩
+    refine ⟨tb, setMany_refines kvs ttl hP0 h (fun kv hkv => hk kv.1 ?_) (hPt ttl (by simp [Op.ttls])), rfl, by simp [Op.dt, Op.isTxOp]⟩
     simp only [Op.keys, List.mem_map]; exact ⟨kv, hkv, rfl⟩
   | get k =>
     have hkk := hk k (by simp [Op.keys])
